@@ -8,6 +8,8 @@ def pytest_configure(config):
         from harness import glue_tracer
         glue_tracer.install()
         glue_tracer.install_collection()
+        if os.environ.get('GLUE_VERIF_TRACE_VIEWERS') == '1':
+            glue_tracer.install_viewers()
 
 
 def pytest_sessionfinish(session, exitstatus):
@@ -15,3 +17,4 @@ def pytest_sessionfinish(session, exitstatus):
         from harness import glue_tracer
         glue_tracer.dump(os.environ['GLUE_VERIF_TRACE_OUT'])
         glue_tracer.dump_collections(os.environ['GLUE_VERIF_TRACE_OUT'] + '.coll')
+        glue_tracer.dump_viewers(os.environ['GLUE_VERIF_TRACE_OUT'] + '.viewers')
